@@ -9,7 +9,8 @@ from .. import reference as ref
 
 PROPERTY = "C07"
 LEVEL = "exploration"
-RULE = ("(full) real bootstrap get_estimates runs with random disjoint called-left / called-right / stop lists over "
+RULE = ("(full) real bootstrap get_estimates runs with random disjoint called-left / called-right / stop lists (handed "
+        "over as list, tuple, set, frozenset or dict; incl. a contest without a single vote that is called) over "
         "the contests (statewide and district offices, 1-3 levels), compared per contest with the decision table and, "
         "for untouched contests, bit for bit with the same run without lists; overlapping lists and names of contests "
         "that are not modelled must raise BootstrapElectionModelException. (injected) after one real bootstrap the "
@@ -152,7 +153,11 @@ def run_full(spec):
         rhs = [x for x in rhs if x != empty_state]
         (lhs if spec["i"] % 8 == 2 else rhs).append(empty_state)
     c2 = copy.deepcopy(call)
-    c2.update(lhs_called_contests=lhs, rhs_called_contests=rhs, stop_model_call=stop)
+    # the lists may be handed over in any container (list, tuple, set, frozenset, dict keys)
+    kind_ = int(rng.integers(0, 5))
+    wrap = [list, tuple, set, frozenset, dict.fromkeys][kind_]
+    out["sets"]["list_containers"] = [["list", "tuple", "set", "frozenset", "dict"][kind_]]
+    c2.update(lhs_called_contests=wrap(lhs), rhs_called_contests=wrap(rhs), stop_model_call=wrap(stop))
     res1, exc = harness.run_estimates(el, feed, c2)
     out["counters"]["full_runs"] = 1
     if exc is not None:
